@@ -1,7 +1,85 @@
+D = "DESIGN.md §2 "
+chk("C01",
+    text="Type-directed generator of well-typed programs (G-prog, proptest choice tape) + exhaustive operator-nesting matrix and scope matrix; every program is "
+         "checked, built and run by the real CLI and compared token-wise with an independent reference interpreter (stdout, exit status, documented error text). "
+         "Sampled search with shrinking; constructs hit by open known findings are excluded by construction and counted.",
+    note="Trusts the harness interpreter's transcription of the documented semantics; judges only the modelled subset (see DESIGN limits).",
+    technique="model-based differential testing: generated programs vs reference interpreter (proptest)", design=D+"C01")
+chk("C02",
+    text="G-prog programs (wide construct set) accepted by `incan --check` must pass `incan build` (code generation + rustc); failures keyed by normalised first error.",
+    note="Only constructs the generator emits are covered; evidence lists construct tags.",
+    technique="generated programs through the real compiler + rustc (proptest), oracle = build succeeds", design=D+"C02")
+chk("C03",
+    text="context skeleton x rule violation with valid twins: every listed rule x every depth-1 context exhaustively plus random deeper paths; in-process checker + CLI sample.",
+    note="Only single-edit violations of the listed rules; located = error span starts inside the smallest enclosing construct.",
+    technique="metamorphic twin generation (valid/violating) with proptest, exhaustive at depth 1", design=D+"C03")
+chk("C04",
+    text="edge-biased operand pairs against an i128 / CPython float_rem reference, core-vs-stdlib parity, panic-text oracle, end-to-end programs through the CLI.",
+    note="Reference model cross-checked against CPython in the thorough tier.",
+    technique="proptest over operand tuples against a reference model + differential parity", design=D+"C04")
+chk("C05",
+    text="sequences x optional index/slice/range arguments incl. i64 extremes against a CPython slice/range model, error-text oracle, end-to-end programs.",
+    note="Reference model cross-checked against CPython in the thorough tier.",
+    technique="proptest against a reference model (PySlice_AdjustIndices / range length)", design=D+"C05")
+chk("C06",
+    text="const-evaluable expression DAGs: compile-time value/type/diagnostic vs independent evaluation with the runtime helpers; end-to-end const-vs-function prints; cycles.",
+    note="Expression language as listed in consts.md.",
+    technique="differential testing compile-time vs run-time evaluation (proptest)", design=D+"C06")
+chk("C07",
+    text="exhaustive enumeration operator x operand kind x exponent kind x binding position (depth 1 quick / 2 thorough): checker verdicts and rustc/run-time agreement.",
+    note="Expected kinds transcribed from numeric_semantics.md.",
+    technique="exhaustive bounded enumeration against the documented table", design=D+"C07")
+chk("C08",
+    text="grammar-directed source generator (G-syn) + repository seeds: parse -> format -> parse must give the same span-erased AST.",
+    note="canon() erases spans and documented spelling normalisations only.",
+    technique="round-trip property over generated syntax trees (proptest)", design=D+"C08")
+chk("C09",
+    text="fmt(fmt(x)) == fmt(x), check_formatted/format_diff agree, trailing newline / whitespace invariants, CLI --check/--diff read-only.",
+    note="Cases whose formatted text does not parse are C08's (counted as blocked).",
+    technique="idempotence + invariant properties over generated programs (proptest)", design=D+"C09")
+chk("C10",
+    text="layout edits (comments, blank lines, CRLF, bracket line breaks, re-indentation) at all positions of base programs must not change the span-erased AST.",
+    note="Edits are aimed with real lexer spans outside string tokens.",
+    technique="metamorphic testing with exhaustive edit positions + proptest edit scripts", design=D+"C10")
+chk("C11",
+    text="prefixes, token-level mutations and random scalar splices of seeds: lex/parse/check/format/emit terminate without panic, diagnostics well-formed.",
+    note="Nesting bounded at 64; libFuzzer targets in the thorough tier.",
+    technique="mutation-based fuzzing with a totality + diagnostic well-formedness oracle", design=D+"C11")
+chk("C12",
+    text="order-sensitive generated projects compiled K=6 times in fresh processes, directories and environments; byte-for-byte comparison of outputs and diagnostics.",
+    note="Hash-order dependence is detected probabilistically (bound reported).",
+    technique="differential testing across processes/environments (proptest-generated projects)", design=D+"C12")
+chk("C13",
+    text="G-prog base programs x consistent renamings per binding position x name class; check/build/stdout/exit must be unchanged.",
+    note="Name pool = candidates minus Incan's vocabulary (lexer + registries).",
+    technique="metamorphic renaming over generated programs", design=D+"C13")
+chk("C14",
+    text="generated project trees x import spellings: reference resolver vs CLI collector vs LSP resolver; visibility twins; cycles/missing modules.",
+    note="Ambiguous layouts judged on CLI/LSP agreement only.",
+    technique="differential + reference-model testing over generated directory layouts (proptest)", design=D+"C14")
+chk("C15",
+    text="feature-trigger x context programs, generate-only: manifest parsed, used crates scanned from generated Rust, U subset D subset U, pinned versions, unknown crates refused.",
+    note="cargo metadata validates manifests; real builds on a sample.",
+    technique="generated programs with an invariant oracle over the generated Cargo project", design=D+"C15")
+chk("C16",
+    text="generated test files (behaviours x markers x flags) with begin/end marker files; model of the documented runner vs reported verdicts, counts, exit status.",
+    note="Marker files make 'body ran to completion' observable independently of the runner.",
+    technique="model-based testing of the test runner over generated test files (proptest)", design=D+"C16")
+chk("C17",
+    text="newtype declaration shapes x construction sites x accepted/rejected arguments compiled and run; nominal typing twins through the checker.",
+    note="One rejected construction per program (last statement).",
+    technique="generated programs vs reference rule (proptest)", design=D+"C17")
+chk("C18",
+    text="harness-owned scheduling of LspService handler futures: generated histories x schedules, invariant at quiescence on hover/definition/completion/diagnostics.",
+    note="Explores the await points that exist in this build.",
+    technique="schedule-exploring stateful property test (proptest histories + interleavings)", design=D+"C18")
 chk("C19",
     text="Exhaustive enumeration of all documents up to 5 (quick) / 6 (thorough) symbols over an alphabet hitting every branch "
          "(1-4 byte scalars, LF, CR, space) x all offsets x all positions x all span pairs, plus proptest documents up to 300 "
          "scalars; compared with an independent line/character reference. Exhaustive below the bound, sampled above it.",
     note="Trusts the harness-side reference (count newlines / scalars). Spans are assumed to be on char boundaries or past the end.",
-    technique="exhaustive bounded enumeration + proptest random documents against a reference model",
-    design="DESIGN.md §2 C19")
+    technique="exhaustive bounded enumeration + proptest random documents against a reference model", design=D+"C19")
+chk("C20",
+    text="generated model/class declarations x values compiled and run: JSON shape + round trip, ==, <, hashing, clone independence vs a structural model.",
+    note="Float text not compared; JSON read by a harness-side reader.",
+    technique="generated programs vs structural reference model (proptest)", design=D+"C20")
